@@ -50,7 +50,7 @@ type c02Env struct {
 	id     Ident
 }
 
-var c02MutKinds = []string{"bitflip", "bytesub", "truncate", "truncate-0", "append", "other-block", "empty", "oversized", "prefix-of-other", "dup-body", "cut-mid-body"}
+var c02MutKinds = []string{"bitflip", "bytesub", "truncate", "truncate-0", "append", "other-block", "empty", "oversized", "prefix-of-other", "dup-body", "cut-mid-body", "append-whitespace", "prepend-whitespace"}
 
 // c02Mutate returns the corrupted body (different from orig) or nil.
 func c02Mutate(r *rand.Rand, kind string, orig []byte, other []byte) []byte {
@@ -69,6 +69,11 @@ func c02Mutate(r *rand.Rand, kind string, orig []byte, other []byte) []byte {
 		out = []byte{}
 	case "append":
 		out = append(append([]byte(nil), orig...), rbytes(r, 1+r.Intn(16))...)
+	case "append-whitespace":
+		// what a text-oriented host or proxy may add to a JSON document (a JSON decoder does not mind)
+		out = append(append([]byte(nil), orig...), []string{"\n", "\r\n", "\n\n", " ", "\t", " \n"}[r.Intn(6)]...)
+	case "prepend-whitespace":
+		out = append([]byte([]string{"\n", " ", "\xef\xbb\xbf"}[r.Intn(3)]), orig...)
 	case "other-block":
 		out = append([]byte(nil), other...)
 	case "oversized":
@@ -240,7 +245,8 @@ func c02Corrupt(c *vf.Ctx) {
 			seg = int64(1 + r.Intn(L))
 		}
 		twoAddrs := r.Intn(4) == 0
-		desc := fmt.Sprintf("hash=%s L=%d corrupt-request=%d(%s) announced=%v seg=%d two-addresses=%v", e.pfx.name, L, pos, kind, announced, seg, twoAddrs)
+		trusted := r.Intn(3) == 0
+		desc := fmt.Sprintf("hash=%s L=%d corrupt-request=%d(%s) announced=%v seg=%d two-addresses=%v trusted-local-storage=%v", e.pfx.name, L, pos, kind, announced, seg, twoAddrs, trusted)
 		c.Cur(sub, i, desc)
 		target := e.chain.Cids[headIdx-pos]
 		otherIdx := (headIdx - pos + 1 + r.Intn(4)) % 5
@@ -287,6 +293,12 @@ func c02Corrupt(c *vf.Ctx) {
 		e.front2.Pub.SetRoot(e.chain.Cids[headIdx])
 
 		dst := NewStore()
+		if trusted {
+			// the application declares its own store trusted (no re-hashing on load); what arrives from the
+			// network is no less untrusted for that
+			dst.Lsys.TrustedStorage = true
+			c.Inc("subscriber_link_system_marked_trusted")
+		}
 		hl := &hookLog{}
 		opts := []dagsync.Option{dagsync.BlockHook(adPrevHook(dst, hl))}
 		if seg != 0 {
